@@ -45,6 +45,22 @@ CHECKS = {
             'spellings), under each clock answer for clock readers: documented kind or ValidationError, dates agree with the digits '
             'and the year/month getters, split() re-joins.',
             'Kinds by function name and date field maps are hand-written from docstrings; getter options at defaults.', 'DESIGN.md 2/C12'),
+    'C06': ('E3', 'explicit-state reachability on automata extracted from the code + conformance replay of product-state witnesses against the implementation',
+            'The finite automaton of each algorithm/alphabet is learned from checksum() by queries; single-substitution and '
+            'adjacent-transposition products and check-digit vectors are explored completely (all lengths); every product state has '
+            'a witness pair executed on the real is_valid(); short strings exhaustively and long periodic strings check conformance.',
+            'Assumes the implementation carries no state besides the observation (checksum, position class); supported by the '
+            'conformance runs (counted in the evidence).', 'DESIGN.md 2/C06'),
+    'C10': ('E1', 'exhaustive enumeration of all well-formed registry files of a small scope x all short queries, implementation vs reference model',
+            'Every registry text of the scope (line pool x file shapes incl. nesting, multi-range lines, overlaps, dedents) is read by '
+            'the real numdb.read() and every query of length <=4 over {0,1,2,3} is compared with a 40-line reference of the documented '
+            'semantics, also after the caller mutated returned dictionaries; plus boundary queries on every entry of the shipped files.',
+            'Reference semantics = statement of C10; scope bounds listed in the evidence.', 'DESIGN.md 2/C10'),
+    'C11': ('E1', 'complete enumeration of the finite registry contents: strict grammar, reachability through the real lookup, consumer witnesses',
+            'Every non-comment line of the 17 shipped registries is linted by an independent strict grammar, every entry endpoint is '
+            'looked up through the real numdb, and every entry is pushed through its consumer (IBAN structures, GS1 AIs, ISBN '
+            'hyphenation, bank/location/office info()).',
+            'Quick tier samples every 4th oui.dat consumer witness (lint and reachability are complete in both tiers).', 'DESIGN.md 2/C11'),
 }
 
 NOT_YET = {}
